@@ -131,11 +131,16 @@ pub const NETWORK: Network = Network::Regtest;
 
 impl World {
     pub fn new(policy: SimplePolicy, seed: [u8; 32], style: KeyDerivationStyle) -> World {
+        World::new_on(NETWORK, policy, seed, style)
+    }
+
+    /// a world on another network (Testnet has compiled-in checkpoints and the short stub horizon)
+    pub fn new_on(network: Network, policy: SimplePolicy, seed: [u8; 32], style: KeyDerivationStyle) -> World {
         let store = MemoryKVVStore::new([7u8; 16]);
         let persister = Arc::new(KVVPersister(store, JsonFormat));
         let clock = Arc::new(ManualClock::new(Duration::from_secs(0)));
         let config = NodeConfig {
-            network: NETWORK,
+            network,
             key_derivation_style: style,
             use_checkpoints: false,
             allow_deep_reorgs: true,
@@ -150,7 +155,7 @@ impl World {
     pub fn services(&self) -> NodeServices {
         let validator_factory = Arc::new(SimpleValidatorFactory::new_with_policy(self.policy.clone()));
         let starting_time_factory: Arc<dyn StartingTimeFactory> =
-            make_genesis_starting_time_factory(NETWORK);
+            make_genesis_starting_time_factory(self.config.network);
         let persister: Arc<dyn Persist> = self.persister.clone();
         let clock: Arc<dyn Clock> = self.clock.clone();
         NodeServices {
